@@ -9,7 +9,7 @@ ID = "C17"
 LEVEL = "exploration"
 RULE = ("cases = (failure kind, call chain): each defined dynamic failure (assert, get nil, list / string index range, zero "
         "divisor of each numeric kind for / and %, overflow of int / bigint / byte arithmetic and negation, shift amount, "
-        "list remove range, string offsets inside a character, conversion and radix ranges, a recursion without a base case) is placed at call depth 0-6 below a chain mixing plain functions, closures, methods, list.map "
+        "list remove range, string offsets inside a character, conversion and radix ranges, a recursion without a base case) (its operand read from a parameter, from a variable captured out of a factory call that has returned, or from a private top-level variable of its file) is placed at call depth 0-6 below a chain mixing plain functions, closures, methods, list.map "
         "callbacks and functions of an imported module - or the whole chain runs at the top level of a module WHILE it is being imported -, optionally under if / while / from blocks, with output printed on the "
         "way down; enumerated part = every kind x every single-element chain kind x depth {0,1,2}; random part = Hypothesis "
         "chains. Oracle: stdout = the prescribed lines, exit status 1 (not 101/134), the FATAL RUNTIME ERROR banner, and a "
@@ -114,11 +114,38 @@ def call_next(nxt, idx, arg):
             ("decl", "r", None, ("index", V("mr%d" % idx), I(0)), ())]
 
 
+def subst_operand(t):
+    """the failing statement with its operand `a` read from the variable `lim` instead"""
+    if isinstance(t, tuple):
+        if t == ("var", "a"):
+            return ("var", "lim")
+        return tuple(subst_operand(x) for x in t)
+    if isinstance(t, list):
+        return [subst_operand(x) for x in t]
+    return t
+
+
+def operand_source(case):
+    """where the failing statement reads its operand from: "param" (the parameter `a`), "factory" (a variable the innermost
+    function captured from a factory call that has long returned) or "module" (a top-level variable of the innermost
+    function's file that is not exported and used nowhere else); both hold the same value as `a`"""
+    o = case.get("operand", "param")
+    d = len(case["chain"])
+    if d == 0:
+        return "param"
+    if o == "factory" and case["chain"][-1] == "M":
+        return "module"
+    return o
+
+
 def build(case):
     """case = {"kind", "chain": [elem kinds], "split": index from which elements live in lib.ms (== len -> none), "wrap", "inner_wrap"}"""
     kind, chain, split = case["kind"], case["chain"], case["split"]
     setup, failing = KINDS[kind]
     d = len(chain)
+    osrc = operand_source(case)
+    if osrc != "param":
+        failing = subst_operand(failing)
     files = {"main": [], "lib": []}
     labels_to_print = {"main": [], "lib": []}
     expect_lines = []
@@ -146,10 +173,19 @@ def build(case):
             if ek == "C":
                 body = [("print", ("bin", "+", S("cap="), V("captured")))] + body
             exported = where == "lib" and idx == split and not at_import     # exports require an explicit type
-            files[where].append(("decl", name, ("fn", ["int"], "int") if exported else None, ("fn", [("a", "int")], "int", body), ("export",) if exported else ()))
+            if idx == d - 1 and osrc == "factory":
+                files[where].append(("decl", "mk%d" % idx, None, ("fn", [("lim", "int")], ("fn", ["int"], "int"), [("return", ("fn", [("a", "int")], "int", body))]), ()))
+                files[where].append(("decl", name, ("fn", ["int"], "int") if exported else None, ("call", V("mk%d" % idx), [I(1)]), ("export",) if exported else ()))
+            else:
+                files[where].append(("decl", name, ("fn", ["int"], "int") if exported else None, ("fn", [("a", "int")], "int", body), ("export",) if exported else ()))
             labels_to_print[where].append(name)
     main = [("decl", "captured", None, I(7), ())]
     lib = [("decl", "captured", None, I(7), ())]
+    if osrc != "param":
+        inner_in_lib = at_import or d - 1 >= split
+        # the other file has a variable of the same name with a value under which the failing statement would not fail
+        (lib if inner_in_lib else main).append(("decl", "lim", None, I(1) if osrc == "module" else I(0 - 5), ()))
+        (main if inner_in_lib else lib).append(("decl", "lim", None, I(0 - 5), ()))
     if at_import:
         main = [("rawstmt", "import lib"), ("print", S("import returned"))]
     elif split < d:
@@ -310,7 +346,7 @@ def describe(case):
     if "nopanic" in case:
         return "nopanic:" + case["nopanic"]
     return "%s @ %s%s wrap=%s/%s prefix=%s" % (case["kind"], "".join(case["chain"]) or "module", (" during-import" if case.get("import_time") else (" lib-from-%d" % case["split"]) if case["split"] < len(case["chain"]) else ""),
-                                                case["wrap"], case["inner_wrap"], case.get("prefix", "none"))
+                                                case["wrap"], case["inner_wrap"], case.get("prefix", "none")) + ("" if operand_source(case) == "param" else " operand-from-" + operand_source(case))
 
 
 def check(case):
@@ -329,6 +365,7 @@ def check(case):
         labels.append("imported-module")
     if case.get("import_time"):
         labels.append("failure-during-import")
+    labels.append("operand=" + operand_source(case))
     r = CaseResult(nt_keys=[describe(case)] if nt else [], labels=labels, sample={"case": describe(case), "main.ms": sc["files"]["p/q/r/main.ms"][-600:]})
     res, fails, _ = scenario.execute(sc)
     if fails:
@@ -359,6 +396,13 @@ def enumerated(tier, seed):
         cases.append({"kind": kind, "chain": [], "split": 0, "wrap": "none", "inner_wrap": "none", "import_time": True})
         cases.append({"kind": kind, "chain": ["F"], "split": 0, "wrap": "none", "inner_wrap": "if", "import_time": True})
         cases.append({"kind": kind, "chain": ["M", "CB"], "split": 0, "wrap": "while", "inner_wrap": "none", "import_time": True})
+        # the operand of the failing statement is a variable the innermost function captured from a frame that is gone / a private
+        # top-level variable of its file, here and in an imported module
+        for o in ("factory", "module"):
+            cases.append({"kind": kind, "chain": ["F"], "split": 1, "wrap": "none", "inner_wrap": "none", "operand": o})
+            cases.append({"kind": kind, "chain": ["F", "C"], "split": 2, "wrap": "if", "inner_wrap": "none", "operand": o})
+            cases.append({"kind": kind, "chain": ["F", "CB"], "split": 1, "wrap": "none", "inner_wrap": "if", "operand": o})
+            cases.append({"kind": kind, "chain": ["F"], "split": 0, "wrap": "none", "inner_wrap": "none", "operand": o})
         for pk in PREFIXES[1:]:
             cases.append({"kind": kind, "chain": ["F"], "split": 1, "wrap": "none", "inner_wrap": "if", "prefix": pk})
             cases.append({"kind": kind, "chain": [], "split": 0, "wrap": "none", "inner_wrap": "none", "prefix": pk})
@@ -377,6 +421,8 @@ def cases_st(draw):
         if chain[split] == "M":
             chain[split] = "F"
     case = {"kind": kind, "chain": chain, "split": split, "wrap": g.choice(WRAPS), "inner_wrap": g.choice(WRAPS), "prefix": g.choice(PREFIXES + ["none", "none"])}
+    if g.chance(30):
+        case["operand"] = g.choice(["factory", "module"])
     if g.chance(12):
         case["import_time"] = True
         case["split"] = 0
